@@ -350,7 +350,7 @@ class RuleGen:
         cat, sub = ('', '') if tag_only else r.choice(CATS)
         if not tag_only and r.random() < .3:
             sub = ''
-        rule = Rule(name='R%d %s' % (self.k, r.choice(['Netflix', 'Uber Eats', "Joe's", 'Big-Box', 'x', 'x', '5% Back', 'Save 10%s', '100%'])), match=self.cond(),
+        rule = Rule(name='R%d %s' % (self.k, r.choice(['Netflix', 'Uber Eats', "Joe's", 'Big-Box', 'x', 'x', '5% Back', 'Save 10%s', '100%', 'Costco [Gas]', 'Shop (EU) #2'])), match=self.cond(),
                     category=cat, subcategory=sub)
         if r.random() < .3:
             rule.merchant = r.choice(['Netflix', 'Uber', 'Merchant %d' % self.k, 'Café'])
